@@ -26,6 +26,16 @@ CLAIMED = {
              "theorems (float32/float64 rounding via the bit-exact tie and a 1e-4 getter tolerance). Known findings K04a (fade half rounding), K04b (tiny motor speed), "
              "K04c (fractional servo pulse bounds folded with int()).",
         technique="Lean 4 refinement theorems Fw vs Host + bit-exact model/compiled-firmware correspondence (S_c) + timeline oracle", ref="4/C04"),
+    "C05": dict(
+        text="Lean model of emit()'s two-pass assembly of setup()/loop() (pre-loop items, loop-body declarations hoisted in two passes, sorted button polls first): "
+             "for every program whose devices are declared before the main loop or at the top of its body, every use is preceded by its configuration; the prologue's "
+             "statements run once and in source order; each pass starts with exactly one poll per button and then the body in order; nothing is configured inside "
+             "loop(); plus (from C01) the split preserves the event sequence of `setup(); loop()×N` for every N and a `break` bound to the main loop is always refused. "
+             "Model tied to the compiled sketch (order of use/marker/poll events over N passes) on random device sets; temporal monitors on the real trace "
+             "(configure-before-use per pin/peripheral, no re-configuration, poll placement, break guard under random nestings).",
+        note="Trusted: Lean kernel (propext, Classical.choice, Quot.sound); the harness builds each script together with its item abstraction; mock core + host g++. "
+             "Proved counterexample: an LCD/serial/buzzer first declared inside the loop body is not configured (documented placement excludes it).",
+        technique="Lean 4 theorems over a model of the emitter's assembly order + model/compiled-sketch correspondence + trace monitors", ref="4/C05"),
     "C08": dict(
         text="One Lean obligation per constructor/method/Core helper (44 callables) over tables REGENERATED from the source on every run — the host signature "
              "(inspect.signature) and the transpiler's behaviour on every call shape (rejects? which provided values fail to reach the generated code?) — checked by "
@@ -164,7 +174,7 @@ def main():
             "guard": "REDUINO_VERIF",
             "enable": "REDUINO_VERIF=1 in the environment of the checks (set by harness/common.py); no build step (Python)",
             "baseline_off_cmd": "cd /repo && env -u REDUINO_VERIF /venv/bin/python -m pytest -ra -q -p no:cacheprovider --timeout=900 --continue-on-collection-errors",
-            "source_commits": [],
+            "source_commits": ["aaec20d"],
             "add_only": True,
         },
         "engines": [{"name": "lean4-proof+correspondence", "path": "lean/ + harness/", "serves_properties": sorted(CLAIMED),
